@@ -11,7 +11,7 @@ Results are appended to /verif/mutants/RESULTS.json (one record per (patch, chec
 """
 import glob, json, os, subprocess, sys, time
 
-V = "/verif"
+V = os.path.dirname(os.path.dirname(os.path.abspath(__file__)))      # the tree this script lives in (a `vp run` snapshot stays self-consistent)
 ALL = ["C%02d" % i for i in range(1, 21)]
 REPO = "/repo"
 ENV = ""
